@@ -8,6 +8,7 @@ import (
 
 	internalNamespace "github.com/ory/keto/internal/namespace"
 	"github.com/ory/keto/internal/namespace/ast"
+	"github.com/ory/keto/internal/x/verifhook"
 )
 
 type (
@@ -32,6 +33,7 @@ func Parse(input string) ([]namespace, []*ParseError) {
 }
 
 func (p *parser) next() (item item) {
+	verifhook.Point("parse.next")
 	if p.lookahead != nil {
 		item = *p.lookahead
 		p.lookahead = nil
@@ -75,6 +77,7 @@ func (p *parser) addFatal(item item, format string, a ...interface{}) {
 	p.fatal = true
 }
 func (p *parser) addErr(item item, format string, a ...interface{}) {
+	verifhook.Point("parse.err")
 	err := &ParseError{
 		msg:  fmt.Sprintf(format, a...),
 		item: item,
